@@ -65,6 +65,37 @@ CHECKS = {
         'note': TB + "unicodedata.lookup is a parameter. Open known finding KF-D21 (decoded backslash not normalised under FORCEWIN).",
         'technique': 'Lean 4 print/scan round-trip theorem with explicit adjacency side condition + exhaustive short-string correspondence',
     },
+    'C08': {
+        'text': "Theorems (Lean): capturing groups, (?:..) wrappers, laziness and class spellings are invisible to the regex "
+                "semantics; two regexes with equal Re.strip have the same full matches for EVERY subject (certificate). The check "
+                "evaluates the certificate strip(translate-mode regex) = strip(match-mode regex) on every sampled pattern (each one a "
+                "proof of language equality for all names), ties the translate-mode text to the code (K1), and runs the public APIs: "
+                "all translate() regexes compile, match == (some inclusion regex fullmatches and no exclusion regex does) for lists, "
+                "exclude=, NEGATE, SPLIT, BRACE, NODIR, and #capturing groups == #extended groups.",
+        'note': TB + "that the certificate holds for every pattern is evaluated per pattern, not proved in general; REALPATH is excluded as the property says.",
+        'technique': 'Lean 4 invariance theorem + per-pattern language-equality certificates + API differential',
+    },
+    'C11': {
+        'text': "Theorems (Lean) over separate models of the three expansion loops (translate, compile_pattern, Glob._iter_patterns) with "
+                "bracex/WcSplit/tilde/compiler as parameters under a stated contract: more than L distinct pieces (L>0) raises "
+                "PatternLimitException, total weight <= L does not, at most L+1 items are drawn from the expansion generator, limit=0 "
+                "disables; default limit = 1000 for every public signature (generated from inspect.signature; WcMatch's was repaired by "
+                "a fix: commit). Tie K4: every entry point x L in {1,2,3,5,32,33,1000,1001} x boundary expansion counts, with bracex.iexpand "
+                "wrapped to count pulled items.",
+        'note': TB + "PARTIAL: with exclude= the full statements are false on this tree (open known findings KF-D11 `limit -= len(negative)`, "
+                "KF-D22 Glob re-initialises total for the exclusion list); the theorems carry the hypothesis exclude = none or |excl| < L and the witnesses are decide+kernel theorems.",
+        'technique': 'Lean 4 arithmetic invariants of the expansion loops + generated signature defaults + boundary-grid correspondence',
+    },
+    'C13': {
+        'text': "Theorems (Lean) over the glob walker model: with NOUNIQUE the result is the concatenation of the per-pattern results; "
+                "otherwise the key list is Nodup and the result set is exactly the union of the single-pattern result sets minus "
+                "exclusions (tested on path+sep for directories, DOTGLOB forced — from generated flag facts); the single-pattern shortcut "
+                "is sound when the pattern's own result keys are Nodup. Tie K5 (exact sequences on generated real trees) with overlapping/"
+                "identical/case-variant/BRACE/SPLIT lists.",
+        'note': TB + "Open known findings KF-G1 (shortcut returns a path twice for two `**` expansions) and KF-D23 (reading-dependent, case variants); "
+                "the IGNORECASE seen-key defect D12 was repaired by a fix: commit.",
+        'technique': 'Lean 4 set-algebra/Nodup theorems on the walker model + exact-sequence correspondence on real trees',
+    },
     'C10': {
         'text': "Theorems over the faithful Lean port of WcParse: the pass is total for every string and every flag "
                 "record and can raise only the documented ValueError (and only under _NOABSOLUTE); the executable matcher "
@@ -78,5 +109,5 @@ CHECKS = {
 }
 
 NOT_APPLICABLE = {k: 'check not built yet in this session (model/proofs in progress); no claim is made' for k in
-                  [ 'C04', 'C05', 'C07', 'C08', 'C09', 'C11', 'C12', 'C13', 'C14', 'C15',
+                  [ 'C04', 'C05', 'C07', 'C09', 'C12', 'C14', 'C15',
                    'C16', 'C17', 'C18', 'C19']}
